@@ -1513,6 +1513,14 @@ func runC16(cfg runCfg) error {
 		"not_in_the_tree": "Map.XmlWriterRaw, Map.XmlIndentWriterRaw, MapSeq.XmlWriterRaw, MapSeq.XmlIndentWriterRaw are commented out in xml.go / xmlseq.go",
 		"sinks":           []string{"bytes.Buffer", "recording io.Writer (no short writes)", "os.File under /verif/build"},
 	}
+	for k := 0; k < cfg.n/20+5; k++ {
+		hr := newRng(cfg.seed*7919 + int64(k))
+		var ms []map[string]interface{}
+		for q := 0; q < 3+hr.Intn(3); q++ {
+			ms = append(ms, map[string]interface{}{hr.pick([]string{"doc", "other", "r"}): map[string]interface{}{"-id": hr.pick(strPool), "x": hr.pick([]string{"first", "second", "a much longer text value"}), "y": []interface{}{"one", hr.pick(strPool)}, "z": float64(hr.Intn(99))}})
+		}
+		runHeld(run, heldCase{Kind: "held-results", Enc: []string{"Xml", "XmlIndent", "Json", "JsonIndent", "AnyXml"}, Maps: ms})
+	}
 	return run.finish()
 }
 
